@@ -270,9 +270,10 @@ func (s *mgrSession) do(o *mOp) *mOp {
 	v := s.v
 	switch o.kind {
 	case "add":
-		// known-finding trigger: the frame repeats a sequence number that is in use on a
-		// probing path or equals highestProbingID
-		// (this is exactly the negation of [safe_add] in coq/ConnIDs/Proofs.v)
+		// trigger of the (repaired) finding connids/probing-dup: the frame repeats a sequence
+		// number that is in use on a probing path, or equals highestProbingID / the active number
+		// while highestProbingID is above the active number. Failures in such a case keep the
+		// key prefix probing-dup/ so that a regression is reported under the finding's key.
 		for _, e := range pre.Probing {
 			if e.Seq == o.seq {
 				s.tainted = true
@@ -415,16 +416,24 @@ func (s *mgrSession) monitor(pre quic.VerifMgrState, o *mOp) {
 	s.prevHeld = held
 	// Retire Prior To honoured: after a frame that was taken (not answered with RETIRE for
 	// itself), nothing below its Retire Prior To is still held
-	if o.kind == "add" && (o.cls == quic.VerifOK || o.cls == quic.VerifLimitErr) && (held[o.seq] || retNow[o.seq] == 0) {
+	// (a frame that repeats the number of an ID in use on a probing path is a duplicate and is
+	// ignored as a whole, like a reordered frame; its Retire Prior To came with the first copy)
+	probingDup := false
+	for _, e := range pre.Probing {
+		if e.Seq == o.seq {
+			probingDup = true
+		}
+	}
+	if o.kind == "add" && !probingDup && (o.cls == quic.VerifOK || o.cls == quic.VerifLimitErr) && (held[o.seq] || retNow[o.seq] == 0) {
 		for q := range held {
 			if q < o.rpt {
 				s.fail("rpt-not-honoured", fmt.Sprintf("sequence number %d still held after Retire Prior To %d", q, o.rpt))
 			}
 		}
 	}
-	// conflicting contents for a queued sequence number must be refused
+	// conflicting contents for a queued or probing sequence number must be refused
 	if o.kind == "add" {
-		for _, e := range pre.Queue {
+		for _, e := range append(append([]quic.VerifNCID{}, pre.Queue...), pre.Probing...) {
 			if e.Seq == o.seq && (!bytes.Equal(e.CID, o.cid) || e.Tok != o.tok) && o.cls != quic.VerifOtherErr && len(pre.ActiveCID) != 0 {
 				s.fail("conflict-accepted", fmt.Sprintf("conflicting contents for queued sequence number %d gave class %d", o.seq, o.cls))
 			}
@@ -548,7 +557,7 @@ func cidFor(base uint64, seq uint64, variant int) []byte {
 	return b
 }
 
-// mgrWitnesses: scripted histories. W1-W3 reproduce the known finding (a repeated
+// mgrWitnesses: scripted histories. W1-W3b are the witnesses of the repaired finding (a repeated
 // NEW_CONNECTION_ID for a sequence number handed to path probing); W4-W6 are plain
 // boundary histories (limit, Retire Prior To jump, reordering).
 func (c *cidRun) mgrWitnesses() {
@@ -658,6 +667,7 @@ func (c *cidRun) mgrCase(r *u.Rng, idx int) {
 		}
 		return k
 	}
+	firstRPT := map[uint64]uint64{} // Retire Prior To of the first transmission of each number
 	mkAdd := func(seq uint64, variant int) *mOp {
 		rpt := uint64(0)
 		switch x := r.Intn(20); {
@@ -679,6 +689,9 @@ func (c *cidRun) mgrCase(r *u.Rng, idx int) {
 			rptMax = rpt
 		}
 		tv := uint64(variant)
+		if _, ok := firstRPT[seq]; !ok {
+			firstRPT[seq] = rpt
+		}
 		return &mOp{kind: "add", seq: seq, rpt: rpt, cid: cidFor(base, seq, variant&1), tok: tokOf(base*1000000 + seq*10 + tv/2)}
 	}
 	for i := 0; i < nops; i++ {
@@ -748,9 +761,13 @@ func (c *cidRun) mgrCase(r *u.Rng, idx int) {
 				s.do(mkAdd(q, 0))
 				sent = append(sent, q)
 			}
-		case x < 58: // retransmission (same contents)
+		case x < 58: // retransmission (same contents; mostly the identical frame, sometimes a new Retire Prior To)
 			if len(sent) > 0 && dupOK {
-				s.do(mkAdd(sent[r.Intn(len(sent))], 0))
+				o := mkAdd(sent[r.Intn(len(sent))], 0)
+				if first, ok := firstRPT[o.seq]; ok && r.Chance(4, 5) {
+					o.rpt = first
+				}
+				s.do(o)
 			}
 		case x < 61: // conflicting contents for a known sequence number
 			if len(sent) > 0 && dupOK {
